@@ -102,6 +102,35 @@ def cases(rng, tier, stats):
             return probs[:2]
         out.append(C.Case("module-layouts", lines, cmp_run(), orc, info={"layouts": names, "module": variants[3][1][:300]}))
     stats["module_layout_programs"] = mm
+    # large files (scale): a module file of 9..40 KB of Bangla text in strings, names and comments, in several paddings (a few
+    # blanks more or less at the front shift every later character by a few bytes): layout is inert in long files too,
+    # whatever buffer the reader uses
+    nbig = 0
+    for size in ((160, 700) if tier != "thorough" else (120, 160, 330, 700, 1500)):
+        stmts = []
+        for i in range(size):
+            stmts.append(("decl", "নাম" + G.bn_digits(str(i)), G.s("বাংলা লেখা " + G.bn_digits(str(i)) + " শেষ")))
+            if i % 7 == 0:
+                stmts.append(("print", G.bin_("+", G.var("নাম" + G.bn_digits(str(i))), G.s("।"))))
+        mod_toks = G.toks_stmts(stmts)
+        base = G.render(mod_toks, "lines")
+        variants = [("plain", base), ("one-blank", " " + base), ("two-blanks", "  " + base), ("newline", "\n" + base),
+                    ("comment", "# ক #\n" + base), ("tabs", "\t\t\t" + base)]
+        main_src = G.source([("print", G.s("আগে")), ("import", "ম", "lib/m.pakhi"), ("print", G.var("ম/নাম" + G.bn_digits(str(size - 1)))), ("print", G.s("পরে"))], "lines")
+        lines, names = [], []
+        for nme, txt in variants:
+            lines += ["RESET", "FILE " + C.hx("@ROOT@/lib/m.pakhi") + " " + C.hx(txt), run_req(main_src)]
+            names.append(nme)
+        def orc2(case, impl, model, names=names):
+            runs = [C.RunAns(impl[3 * k + 2]) for k in range(len(names))]
+            probs = []
+            for k, a in enumerate(runs[1:], 1):
+                if a.out != runs[0].out or a.kind != runs[0].kind:
+                    probs.append(f"large module, layout {names[k]}: output differs from the plain layout ({len(a.out or '')} vs {len(runs[0].out or '')} characters, {' '.join(a.status[:2])})")
+            return probs[:2]
+        out.append(C.Case("large-module-layouts", lines, cmp_run(), orc2, info={"layouts": names, "bytes": len(base.encode("utf-8"))}))
+        nbig += 1
+    stats["large_module_files"] = nbig
     return out
 
 
